@@ -60,6 +60,10 @@ enum Place {
     Inside,
     OutsideLow,
     OutsideHigh,
+    /// outside by 100 times the documented tolerance of that side (1e-6 relative to the limit of
+    /// the same side; any amount if that limit is 0), however large the other end of the range is
+    NearLow,
+    NearHigh,
 }
 
 #[derive(Clone, Copy, Debug, PartialEq)]
@@ -135,7 +139,23 @@ fn build(host: Host, dt: DataType, conv: Conv, limits: (f64, f64)) -> A2lFile {
             }
             _ => {}
         }
-        m.compu_method.push(cm);
+        if matches!(host, Host::Measurement | Host::AxisPts | Host::TypedefMeasurement) {
+            // the conversion is looked up by name in a list that was edited before: two other
+            // conversions are pushed first, the one in front of `cm` is removed again (which moves
+            // `cm`), and another one with different coefficients is appended
+            let other = |name: &str, a: f64| {
+                let mut o = CompuMethod::new(name.into(), "".into(), ConversionType::Linear, "%8.3".into(), "".into());
+                o.coeffs_linear = Some(CoeffsLinear::new(a, 12345.0));
+                o
+            };
+            m.compu_method.push(other("cm_other0", 3.0));
+            m.compu_method.push(other("cm_other1", 5.0));
+            m.compu_method.push(cm);
+            m.compu_method.swap_remove("cm_other1");
+            m.compu_method.push(other("cm_other2", -7.0));
+        } else {
+            m.compu_method.push(cm);
+        }
     }
     // a record layout whose FNC_VALUES / AXIS_PTS_X carry the data type under test; the other one is
     // FLOAT64 so that only the element under test can be out of range
@@ -264,6 +284,14 @@ fn place_limits(range: (f64, f64), place: Place) -> Option<(f64, f64)> {
             Place::Inside => (lo + 0.01 * w, hi - 0.01 * w),
             Place::OutsideLow => (lo - d_lo, inner.1),
             Place::OutsideHigh => (inner.0, hi + d_hi),
+            Place::NearLow => {
+                let d = if lo == 0.0 { 1e-7 * w } else { 1e-4 * lo.abs() };
+                (lo - d, inner.1)
+            }
+            Place::NearHigh => {
+                let d = if hi == 0.0 { 1e-7 * w } else { 1e-4 * hi.abs() };
+                (inner.0, hi + d)
+            }
         };
         if out.0.is_finite() && out.1.is_finite() && d_lo > 0.0 && d_hi > 0.0 {
             Some(out)
@@ -386,7 +414,7 @@ fn grid() -> Vec<Case> {
     for host in HOSTS {
         for dt_idx in 0..DATATYPES.len() {
             for conv in &convs {
-                for place in [Place::Inside, Place::OutsideLow, Place::OutsideHigh] {
+                for place in [Place::Inside, Place::OutsideLow, Place::OutsideHigh, Place::NearLow, Place::NearHigh] {
                     out.push(Case {
                         host,
                         dt_idx,
@@ -402,7 +430,7 @@ fn grid() -> Vec<Case> {
 
 pub fn run(args: &Args, rec: &mut Recorder) {
     rec.rule = "evaluation = one check() call on a module holding one element (MEASUREMENT, CHARACTERISTIC via FNC_VALUES, AXIS_PTS via AXIS_PTS_X, STD_AXIS AXIS_DESCR via AXIS_PTS_X, TYPEDEF_MEASUREMENT) of one of the 11 data types with one conversion and limits placed clearly inside / outside-low / outside-high of the range computed by an independent calculator; the LimitCheckError verdict must match. The grid is enumerated completely in both tiers; quick adds 100 000 and thorough 5 000 000 random coefficient draws (magnitudes 1e-6..1e6, both signs). distinct_nontrivial = distinct (host, type, conversion, placement) tuples".into();
-    rec.assumptions.push("'clearly' outside = by 1 % of max(range width, |limit|), i.e. 10^4 times the documented 1e-6 relative tolerance; limits exactly at the range are not judged; ranges that are not finite in f64 have no outside placement".into());
+    rec.assumptions.push("'clearly' outside = by 1 % of max(range width, |limit|), i.e. 10^4 times the documented 1e-6 relative tolerance; limits exactly at the range are not judged; 'near' placements are outside by 100 x the documented tolerance of the same side (any amount if that limit is 0); ranges that are not finite in f64 have no outside placement".into());
     let cases = grid();
     let n_grid = cases.len() as u64;
     let n_rand: u64 = if args.thorough { 5_000_000 } else { 100_000 };
@@ -434,6 +462,8 @@ pub fn run(args: &Args, rec: &mut Recorder) {
     rec.floor("place.Inside", 10);
     rec.floor("place.OutsideLow", 10);
     rec.floor("place.OutsideHigh", 10);
+    rec.floor("place.NearLow", 10);
+    rec.floor("place.NearHigh", 10);
 }
 
 fn random_case(rng: &mut Rng) -> Case {
@@ -452,6 +482,6 @@ fn random_case(rng: &mut Rng) -> Case {
         host: *rng.pick(&HOSTS),
         dt_idx: rng.below(DATATYPES.len()),
         conv,
-        place: *rng.pick(&[Place::Inside, Place::OutsideLow, Place::OutsideHigh]),
+        place: *rng.pick(&[Place::Inside, Place::OutsideLow, Place::OutsideHigh, Place::NearLow, Place::NearHigh]),
     }
 }
